@@ -461,6 +461,8 @@ def run(ctx, rep):
     rule_ident(ctx, rep)
     rule_vars(ctx, rep)
     rule_collide(ctx, rep, g)
-    from rules import c01_consume, c01_drain
+    from rules import c01_consume, c01_drain, c01_fold
     c01_consume.run(ctx, rep, g)
     c01_drain.run(ctx, rep, g)
+    c01_fold.run(ctx, rep, g)
+    c01_fold.run_partial(ctx, rep)
